@@ -1,0 +1,367 @@
+//! Verification hook: hash containers with a schedulable iteration order
+//!
+//! Only compiled with `--cfg trark_rssl_verif`. The compiler crates then use these types in place of
+//! `std::collections::{HashMap, HashSet}`. Lookups and updates go straight to a std container with a fixed hasher.
+//! Every operation that *iterates* first collects the elements in that fixed order and then applies a permutation
+//! chosen by the installed chooser - which lets a model checker explore the orders the per-instance random seed of
+//! the std containers may produce. Without a chooser the fixed order is used.
+
+use std::borrow::Borrow;
+use std::cell::RefCell;
+use std::hash::{BuildHasherDefault, Hash};
+use std::panic::Location;
+
+type FixedState = BuildHasherDefault<std::collections::hash_map::DefaultHasher>;
+type InnerMap<K, V> = std::collections::HashMap<K, V, FixedState>;
+type InnerSet<K> = std::collections::HashSet<K, FixedState>;
+
+/// Callback deciding the iteration order at one site: (number of elements, call site) -> index below order_count(n)
+pub type Chooser = Box<dyn FnMut(usize, &'static Location<'static>) -> usize>;
+
+thread_local! {
+    static CHOOSER: RefCell<Option<Chooser>> = const { RefCell::new(None) };
+}
+
+/// Install or remove the order chooser for this thread
+pub fn set_chooser(chooser: Option<Chooser>) {
+    CHOOSER.with(|c| *c.borrow_mut() = chooser);
+}
+
+/// Number of different orders offered for a container of n elements
+///
+/// All n! orders for up to 4 elements. Above that: the fixed order, each adjacent transposition, the reversal and
+/// the rotation by one.
+pub fn order_count(n: usize) -> usize {
+    match n {
+        0 | 1 => 1,
+        2 => 2,
+        3 => 6,
+        4 => 24,
+        _ => n + 2,
+    }
+}
+
+/// The permutation with the given index - index 0 is always the identity
+pub fn permutation(n: usize, index: usize) -> Vec<usize> {
+    let mut order = (0..n).collect::<Vec<_>>();
+    if n <= 4 {
+        // Factorial number system - index 0 gives the identity
+        let mut pool = order.clone();
+        let mut index = index;
+        let mut radix = (1..=n).product::<usize>();
+        order.clear();
+        for remaining in (1..=n).rev() {
+            radix /= remaining;
+            let digit = index / radix;
+            index %= radix;
+            order.push(pool.remove(digit));
+        }
+    } else if index == 0 {
+        // Identity
+    } else if index < n {
+        order.swap(index - 1, index);
+    } else if index == n {
+        order.reverse();
+    } else {
+        order.rotate_left(1);
+    }
+    order
+}
+
+fn permute<T>(items: Vec<T>, location: &'static Location<'static>) -> Vec<T> {
+    let n = items.len();
+    if n < 2 {
+        return items;
+    }
+    let index = CHOOSER.with(|c| match c.borrow_mut().as_mut() {
+        Some(chooser) => chooser(n, location),
+        None => 0,
+    });
+    if index == 0 {
+        return items;
+    }
+    assert!(index < order_count(n));
+    let order = permutation(n, index);
+    let mut slots = items.into_iter().map(Some).collect::<Vec<_>>();
+    order
+        .into_iter()
+        .map(|i| slots[i].take().unwrap())
+        .collect()
+}
+
+/// Replacement for std::collections::HashMap
+#[derive(Clone)]
+pub struct HashMap<K, V>(InnerMap<K, V>);
+
+/// Replacement for std::collections::HashSet
+#[derive(Clone)]
+pub struct HashSet<K>(InnerSet<K>);
+
+impl<K, V> HashMap<K, V> {
+    pub fn new() -> Self {
+        HashMap(InnerMap::default())
+    }
+
+    pub fn with_capacity(capacity: usize) -> Self {
+        HashMap(InnerMap::with_capacity_and_hasher(
+            capacity,
+            FixedState::default(),
+        ))
+    }
+
+    #[track_caller]
+    pub fn iter(&self) -> std::vec::IntoIter<(&K, &V)> {
+        permute(self.0.iter().collect(), Location::caller()).into_iter()
+    }
+
+    #[track_caller]
+    pub fn iter_mut(&mut self) -> std::vec::IntoIter<(&K, &mut V)> {
+        permute(self.0.iter_mut().collect(), Location::caller()).into_iter()
+    }
+
+    #[track_caller]
+    pub fn keys(&self) -> std::vec::IntoIter<&K> {
+        permute(self.0.keys().collect(), Location::caller()).into_iter()
+    }
+
+    #[track_caller]
+    pub fn values(&self) -> std::vec::IntoIter<&V> {
+        permute(self.0.values().collect(), Location::caller()).into_iter()
+    }
+
+    #[track_caller]
+    pub fn values_mut(&mut self) -> std::vec::IntoIter<&mut V> {
+        permute(self.0.values_mut().collect(), Location::caller()).into_iter()
+    }
+
+    #[track_caller]
+    pub fn into_keys(self) -> std::vec::IntoIter<K> {
+        permute(self.0.into_keys().collect(), Location::caller()).into_iter()
+    }
+
+    #[track_caller]
+    pub fn into_values(self) -> std::vec::IntoIter<V> {
+        permute(self.0.into_values().collect(), Location::caller()).into_iter()
+    }
+
+    #[track_caller]
+    pub fn drain(&mut self) -> std::vec::IntoIter<(K, V)> {
+        permute(self.0.drain().collect(), Location::caller()).into_iter()
+    }
+}
+
+impl<K> HashSet<K> {
+    pub fn new() -> Self {
+        HashSet(InnerSet::default())
+    }
+
+    pub fn with_capacity(capacity: usize) -> Self {
+        HashSet(InnerSet::with_capacity_and_hasher(
+            capacity,
+            FixedState::default(),
+        ))
+    }
+
+    #[track_caller]
+    pub fn iter(&self) -> std::vec::IntoIter<&K> {
+        permute(self.0.iter().collect(), Location::caller()).into_iter()
+    }
+
+    #[track_caller]
+    pub fn drain(&mut self) -> std::vec::IntoIter<K> {
+        permute(self.0.drain().collect(), Location::caller()).into_iter()
+    }
+}
+
+impl<K: Eq + Hash> HashSet<K> {
+    #[track_caller]
+    pub fn union<'a>(&'a self, other: &'a HashSet<K>) -> std::vec::IntoIter<&'a K> {
+        permute(self.0.union(&other.0).collect(), Location::caller()).into_iter()
+    }
+
+    #[track_caller]
+    pub fn intersection<'a>(&'a self, other: &'a HashSet<K>) -> std::vec::IntoIter<&'a K> {
+        permute(
+            self.0.intersection(&other.0).collect(),
+            Location::caller(),
+        )
+        .into_iter()
+    }
+
+    #[track_caller]
+    pub fn difference<'a>(&'a self, other: &'a HashSet<K>) -> std::vec::IntoIter<&'a K> {
+        permute(self.0.difference(&other.0).collect(), Location::caller()).into_iter()
+    }
+
+    pub fn is_subset(&self, other: &HashSet<K>) -> bool {
+        self.0.is_subset(&other.0)
+    }
+
+    pub fn is_superset(&self, other: &HashSet<K>) -> bool {
+        self.0.is_superset(&other.0)
+    }
+
+    pub fn is_disjoint(&self, other: &HashSet<K>) -> bool {
+        self.0.is_disjoint(&other.0)
+    }
+}
+
+impl<K, V> std::ops::Deref for HashMap<K, V> {
+    type Target = InnerMap<K, V>;
+    fn deref(&self) -> &Self::Target {
+        &self.0
+    }
+}
+
+impl<K, V> std::ops::DerefMut for HashMap<K, V> {
+    fn deref_mut(&mut self) -> &mut Self::Target {
+        &mut self.0
+    }
+}
+
+impl<K> std::ops::Deref for HashSet<K> {
+    type Target = InnerSet<K>;
+    fn deref(&self) -> &Self::Target {
+        &self.0
+    }
+}
+
+impl<K> std::ops::DerefMut for HashSet<K> {
+    fn deref_mut(&mut self) -> &mut Self::Target {
+        &mut self.0
+    }
+}
+
+impl<K, V> Default for HashMap<K, V> {
+    fn default() -> Self {
+        HashMap::new()
+    }
+}
+
+impl<K> Default for HashSet<K> {
+    fn default() -> Self {
+        HashSet::new()
+    }
+}
+
+impl<K: Eq + Hash, V: PartialEq> PartialEq for HashMap<K, V> {
+    fn eq(&self, other: &Self) -> bool {
+        self.0 == other.0
+    }
+}
+
+impl<K: Eq + Hash, V: Eq> Eq for HashMap<K, V> {}
+
+impl<K: Eq + Hash> PartialEq for HashSet<K> {
+    fn eq(&self, other: &Self) -> bool {
+        self.0 == other.0
+    }
+}
+
+impl<K: Eq + Hash> Eq for HashSet<K> {}
+
+impl<K: std::fmt::Debug, V: std::fmt::Debug> std::fmt::Debug for HashMap<K, V> {
+    fn fmt(&self, f: &mut std::fmt::Formatter) -> std::fmt::Result {
+        self.0.fmt(f)
+    }
+}
+
+impl<K: std::fmt::Debug> std::fmt::Debug for HashSet<K> {
+    fn fmt(&self, f: &mut std::fmt::Formatter) -> std::fmt::Result {
+        self.0.fmt(f)
+    }
+}
+
+impl<K: Eq + Hash, V> FromIterator<(K, V)> for HashMap<K, V> {
+    fn from_iter<T: IntoIterator<Item = (K, V)>>(iter: T) -> Self {
+        HashMap(iter.into_iter().collect())
+    }
+}
+
+impl<K: Eq + Hash> FromIterator<K> for HashSet<K> {
+    fn from_iter<T: IntoIterator<Item = K>>(iter: T) -> Self {
+        HashSet(iter.into_iter().collect())
+    }
+}
+
+impl<K: Eq + Hash, V, const N: usize> From<[(K, V); N]> for HashMap<K, V> {
+    fn from(items: [(K, V); N]) -> Self {
+        items.into_iter().collect()
+    }
+}
+
+impl<K: Eq + Hash, const N: usize> From<[K; N]> for HashSet<K> {
+    fn from(items: [K; N]) -> Self {
+        items.into_iter().collect()
+    }
+}
+
+impl<K: Eq + Hash, V> Extend<(K, V)> for HashMap<K, V> {
+    fn extend<T: IntoIterator<Item = (K, V)>>(&mut self, iter: T) {
+        self.0.extend(iter)
+    }
+}
+
+impl<K: Eq + Hash> Extend<K> for HashSet<K> {
+    fn extend<T: IntoIterator<Item = K>>(&mut self, iter: T) {
+        self.0.extend(iter)
+    }
+}
+
+impl<'a, K: Eq + Hash + Copy> Extend<&'a K> for HashSet<K> {
+    fn extend<T: IntoIterator<Item = &'a K>>(&mut self, iter: T) {
+        self.0.extend(iter)
+    }
+}
+
+impl<K: Eq + Hash + Borrow<Q>, Q: Eq + Hash + ?Sized, V> std::ops::Index<&Q> for HashMap<K, V> {
+    type Output = V;
+    fn index(&self, key: &Q) -> &V {
+        &self.0[key]
+    }
+}
+
+impl<K, V> IntoIterator for HashMap<K, V> {
+    type Item = (K, V);
+    type IntoIter = std::vec::IntoIter<(K, V)>;
+    #[track_caller]
+    fn into_iter(self) -> Self::IntoIter {
+        permute(self.0.into_iter().collect(), Location::caller()).into_iter()
+    }
+}
+
+impl<'a, K, V> IntoIterator for &'a HashMap<K, V> {
+    type Item = (&'a K, &'a V);
+    type IntoIter = std::vec::IntoIter<(&'a K, &'a V)>;
+    #[track_caller]
+    fn into_iter(self) -> Self::IntoIter {
+        permute(self.0.iter().collect(), Location::caller()).into_iter()
+    }
+}
+
+impl<'a, K, V> IntoIterator for &'a mut HashMap<K, V> {
+    type Item = (&'a K, &'a mut V);
+    type IntoIter = std::vec::IntoIter<(&'a K, &'a mut V)>;
+    #[track_caller]
+    fn into_iter(self) -> Self::IntoIter {
+        permute(self.0.iter_mut().collect(), Location::caller()).into_iter()
+    }
+}
+
+impl<K> IntoIterator for HashSet<K> {
+    type Item = K;
+    type IntoIter = std::vec::IntoIter<K>;
+    #[track_caller]
+    fn into_iter(self) -> Self::IntoIter {
+        permute(self.0.into_iter().collect(), Location::caller()).into_iter()
+    }
+}
+
+impl<'a, K> IntoIterator for &'a HashSet<K> {
+    type Item = &'a K;
+    type IntoIter = std::vec::IntoIter<&'a K>;
+    #[track_caller]
+    fn into_iter(self) -> Self::IntoIter {
+        permute(self.0.iter().collect(), Location::caller()).into_iter()
+    }
+}
